@@ -46,15 +46,25 @@ ASSUMPTIONS = [
     'violations they repair)',
     'psychrometric chart: SI only in the model (IP temperature categories are float-accumulated; oracle only)',
 ]
-LEVEL_TEXT = ('Machine-checked Lean 4 theorems over an executable model of the data placement of HourlyPlot, '
-              'histogram/histogram_circular, WindRose, MonthlyChart bars and PsychrometricChart cells; the model is '
-              'compared with the real classes (mesh faces, centroids, values, colours, bins, bar vertices, cell '
-              'counts) on boundary-biased generated inputs on every run, and the statement is evaluated on the real '
-              'objects by an independent oracle.')
+LEVEL_TEXT = ('Machine-checked Lean 4 theorems (7) over an executable model of the data placement of HourlyPlot, '
+              'histogram/histogram_circular, WindRose, MonthlyChart bars and PsychrometricChart cells. Proved for all '
+              'inputs: the hourly mesh of a non-wrapping period (any hour window incl. overnight, all 12 timesteps, '
+              'leap or not, continuous/windowed/sparse data, y axis not reversed) has one face per value and the face '
+              'of a value lies in the column of its day and the row of its time of day; every face carries the colour '
+              'computed from its own value (both orientations); a circular-histogram sample lands in one bin only, '
+              'which contains it (wrapping bin: both arcs); bar heights are affine in the value. The model is compared '
+              'with the real classes (mesh faces, centroids, values, bins, bar vertices, cell counts) on '
+              'boundary-biased generated inputs on every run, and the whole statement (incl. reverse_y, wrapping '
+              'periods, wind-rose sums and prevailing direction, histogram partition, bar columns, psychrometric '
+              'counts) is evaluated on the real objects by an independent oracle.')
 LEVEL_NOTE = ('Trusted: Lean kernel; axioms propext/Classical.choice/Quot.sound only; the correspondence run '
               '(agreement on generated inputs only); ladybug_geometry mesh conventions; exact-rational model of float '
-              'formulas (compared within 1e-9). Hourly-plot cell theorem is proved for non-wrapping periods; '
-              'year-wrapping periods are compared and oracle-checked only.')
+              'formulas (compared within 1e-9); C04 characterisation of AnalysisPeriod.moys and the C13 validation '
+              'post-condition (data date-times are a chronological sub-list of the period). NOT proved, only compared '
+              'and oracle-checked: mirrored rows under reverse_y, year-wrapping periods, histogram partition, '
+              'wind-rose coverage/sum/prevailing arg-max, bar columns, psychrometric cell counts. The model describes '
+              'the code with fixes/C17_hourlyplot_num_y.patch, C17_hourlyplot_reverse_by_doy.patch and '
+              'C17_daily_bars_first_month.patch applied; two open findings are listed in known_findings.d/C17.json.')
 TECHNIQUE = ('Lean 4 proof (list induction, sorted-list uniqueness on the C04 characterisation of moys, omega) about '
              'a hand model tied to the plot classes by differential correspondence on mesh faces and bins')
 
